@@ -131,6 +131,8 @@ def sortedness(v, assume=()):
             return "unsorted"
         if v.fn in ("concat_seq",):
             return "unsorted"
+        if v.fn.startswith("rng:"):
+            return "unsorted"
         if v.fn in ("store",):
             return "unknown"
         return "unknown"
